@@ -45,7 +45,7 @@ SPEC = {
     "components_real": ["fakesnow/*", "sqlglot", "duckdb engine (in-memory)"],
     "components_stubbed": ["thread scheduling (serial: one thread in list order; otherwise baton over real threads)"],
     "assumptions": ["writes of different sessions never touch the same table (the property says non-conflicting writes)"],
-    "mandatory_probes": {"any": ["foreign_read_during_open_txn", "foreign_read_after_commit", "rollback", "commit_without_txn", "own_read_in_txn", "fail_in_txn", "preempt_inside_op", "table_created_in_txn"]},
+    "mandatory_probes": {"any": ["foreign_read_during_open_txn", "foreign_read_after_commit", "rollback", "commit_without_txn", "own_read_in_txn", "fail_in_txn", "preempt_inside_op", "table_created_in_txn", "runtime_failure_in_txn"]},
 }
 
 
@@ -70,7 +70,14 @@ def gen(rng: Any, prop: str, tier: str) -> dict[str, Any]:
     for _ in range(rng.randint(10, 36)):
         sid = rng.choice(sids)
         cur = rng.choice([0, 0, 1])
-        kind = rng.choices(["begin", "end", "insert", "read", "read2", "delete_own", "fail", "end_noop", "create_in_txn"], [5, 7, 12, 12, 2, 2, 2, 1, 2])[0]
+        kind = rng.choices(["begin", "end", "insert", "read", "read2", "delete_own", "fail", "end_noop", "create_in_txn", "fail_runtime"], [5, 7, 12, 12, 2, 2, 2, 1, 2, 1])[0]
+        if kind == "fail_runtime":
+            if open_txn[sid]:
+                # a statement failing at run time (not because of what it refers to): the engine aborts its transaction.
+                # What must still hold: no dirty read, no trace after ROLLBACK, all-or-nothing at COMMIT.
+                ops.append({"s": sid, "k": "exec", "cur": cur, "sql": rng.choice(["SELECT 'abc'::INT", "SELECT CAST('x' AS INT)"]), "fail_runtime": True})
+                continue
+            kind = "read"
         if kind == "create_in_txn":
             if not open_txn[sid]:
                 kind = "insert"
@@ -157,6 +164,7 @@ def check_history(history: list[dict[str, Any]], probes: dict[str, int]) -> dict
     txns: list[dict[str, Any]] = []
     row_txn: dict[int, dict[str, Any]] = {}
     table_txn: dict[str, dict[str, Any]] = {}
+    doomed_tables: set[str] = history[0].setdefault("_doomed_tables", set()) if history else set()
     for sid, hs in per.items():
         cur: dict[str, Any] | None = None
         for h in hs:
@@ -166,10 +174,24 @@ def check_history(history: list[dict[str, Any]], probes: dict[str, int]) -> dict
                     return v_("raises/connect", "connect failed", brief(h))
                 continue
             t = op.get("txn")
+            if op.get("fail_runtime"):
+                probes["runtime_failure_in_txn"] = probes.get("runtime_failure_in_txn", 0) + 1
+                if out.get("ok"):
+                    return v_("fail-outcome/runtime-ok", "a statement that cannot be evaluated must raise", brief(h))
+                if cur is not None:
+                    cur["doomed"] = True
+                continue
+            if cur is not None and cur.get("doomed") and not out.get("ok") and t not in ("commit", "rollback"):
+                continue  # the engine refuses statements of an aborted transaction until it is ended: tolerated, nothing recorded
             if op.get("fail"):
                 probes["fail_in_txn"] = probes.get("fail_in_txn", 0) + (1 if cur is not None else 0)
                 if out.get("ok") or out.get("exc") != "ProgrammingError":
                     return v_(f"fail-outcome/{out.get('exc')}", "a failing statement inside the history must raise ProgrammingError", brief(h))
+                continue
+            if not out.get("ok") and cur is not None and cur.get("doomed") and t in ("commit", "rollback"):
+                cur["end"] = h
+                cur["state"] = "rolledback"
+                cur = None
                 continue
             if not out.get("ok"):
                 if "r" in op and any(x.startswith("N_") for x in op["r"]) and out.get("exc") == "ProgrammingError":
@@ -188,6 +210,8 @@ def check_history(history: list[dict[str, Any]], probes: dict[str, int]) -> dict
                 else:
                     cur["end"] = h
                     cur["state"] = "committed" if t == "commit" else "rolledback"
+                    if cur.get("doomed") and t == "commit":
+                        doomed_tables.update(r["table"] for r in cur["rows"].values())
                     if t == "rollback":
                         probes["rollback"] = probes.get("rollback", 0) + 1
                     cur = None
@@ -224,8 +248,8 @@ def check_history(history: list[dict[str, Any]], probes: dict[str, int]) -> dict
                 # "table does not exist" is right exactly when the creating transaction is not (yet) visible to this reader
                 for tname in op["r"]:
                     tx = table_txn.get(tname)
-                    if tx is None:
-                        continue
+                    if tx is None or tx.get("doomed"):
+                        continue  # a transaction the engine aborted after a run-time failure may have been discarded as a whole
                     end_ret = tx["end"]["ret"] if tx["end"] is not None else INF
                     own_visible = tx["s"] == sid and tx["tables"][tname]["ret"] < h["inv"] and not (tx["state"] == "rolledback" and tx["end"]["ret"] < h["inv"])
                     reader_txn = h.get("_txn_open")
@@ -264,7 +288,7 @@ def check_history(history: list[dict[str, Any]], probes: dict[str, int]) -> dict
                         continue
                     must = {i for i in rel if tx["rows"][i]["h"]["ret"] < h["inv"] and not ("del" in tx["rows"][i] and tx["rows"][i]["del"]["ret"] < h["inv"])}
                     mustnot = {i for i in rel if tx["rows"][i]["h"]["inv"] > h["ret"] or ("del" in tx["rows"][i] and tx["rows"][i]["del"]["ret"] < h["inv"])}
-                    if tx["state"] != "rolledback" or h["ret"] < end_inv:
+                    if (tx["state"] != "rolledback" or h["ret"] < end_inv) and not tx.get("doomed"):
                         if not must <= X:
                             probes["own_read_in_txn"] = probes.get("own_read_in_txn", 0) + 1
                             return v_(f"read-your-writes/cur{op.get('cur', 0)}", "the issuing connection does not see its own writes", {"read": brief(h), "missing": sorted(must - X)})
@@ -295,7 +319,7 @@ def check_history(history: list[dict[str, Any]], probes: dict[str, int]) -> dict
                 if end_ret < h["inv"]:
                     probes["foreign_read_after_commit"] = probes.get("foreign_read_after_commit", 0) + 1
                     older_own = reader_txn is not None and reader_txn["begin"]["inv"] < end_ret
-                    if not older_own and final and not seen:
+                    if not older_own and final and not seen and not tx.get("doomed"):
                         return v_("commit-not-visible" + ("/autocommit" if tx["auto"] else ""), "a committed transaction is not visible to a later read outside any older transaction",
                                   {"read": brief(h), "missing": sorted(final), "txn_of": tx["s"]})
     return None
@@ -357,7 +381,10 @@ def run(case: dict[str, Any]) -> dict[str, Any]:
             snap = world.observe(with_sessions=False)
             got = {t.split(".")[-1]: sorted(r[0] for r in rows) for t, rows in snap["rows"].items()}
             exp = expected_final(history)
+            doomed = history[0].get("_doomed_tables", set()) if history else set()
             for t in sorted(set(got) | set(exp)):
+                if t in doomed:
+                    continue  # a COMMIT after a run-time failure: the engine may have discarded the transaction (all or nothing is checked on the reads)
                 if got.get(t, []) != exp.get(t, []):
                     violation = v_("final-state", "the committed state at the end differs from the committed transactions' rows",
                                    {"table": t, "expected": exp.get(t, []), "observed": got.get(t, [])})
